@@ -179,6 +179,11 @@ def run_case(case, trace_lines=True):
             return pu.single_thread_prefetch(EagerlyFailing() if case.get('iter_fail') else gen(), b)
         if kind == 'lpm':
             inp = source()
+            if case.get('input_as'):
+                # an in-memory sequence as input (module-level use of lazy_parallel_map): no pull events, the
+                # function-start bound still holds
+                inp = {'list': list, 'tuple': tuple, 'range_map': lambda v: v}[case['input_as']](
+                    [srcval(i) for i in range(n)])
             if case.get('under_pf1'):
                 # the input of the parallel map is itself a single-thread prefetch (closing it joins its thread)
                 inp = pu.single_thread_prefetch(inp, case['under_pf1'])
@@ -403,7 +408,7 @@ def describe(tr):
     return (f"workload {c['kind']} n={c['n']} workers={c['workers']} buffer={c['buffer']} "
             f"with_key={c.get('with_key', False)} src_fail={c.get('src_fail', {})} fn_fail={c.get('fn_fail', {})} "
             f"catch={c.get('catch', False)} stop={c.get('stop')} pauses={c.get('pauses', [])} "
-            + ''.join(f'{k}={c[k]} ' for k in ('vk', 'batched', 'dual', 'copy', 'under_pf1', 'profiled', 'src', 'shuffled', 'epochs', 'src_none', 'iter_fail', 'nested_pool', 'serial', 'cache_below') if c.get(k) is not None and c.get(k) is not False) +
+            + ''.join(f'{k}={c[k]} ' for k in ('vk', 'batched', 'dual', 'copy', 'under_pf1', 'input_as', 'profiled', 'src', 'shuffled', 'epochs', 'src_none', 'iter_fail', 'nested_pool', 'serial', 'cache_below') if c.get(k) is not None and c.get(k) is not False) +
             f"decisions={len(tr.sched.decisions)} preemptions={tr.sched.preemptions}")
 
 
@@ -694,6 +699,9 @@ def st_case(draw, profile):
         # the input of the parallel map is a single-thread prefetch: two kinds of background threads, and a consumer
         # stop has to wind down both (closing the input joins its hand-over thread)
         case['under_pf1'] = draw(st.integers(1, 3))
+    if kind == 'lpm' and not case.get('under_pf1') and not case.get('serial') and profile in ('plain', 'readahead', 'stop') \
+            and draw(st.integers(0, 3)) == 0:
+        case['input_as'] = draw(st.sampled_from(['list', 'tuple']))
     if n >= 2 and draw(st.integers(0, 3)) > 0:
         # one slow task (many internal yield points): what makes later tasks finish before earlier ones
         case['slow'] = [draw(st.integers(0, n - 2)), draw(st.integers(8, 40))]
@@ -773,6 +781,8 @@ def st_case(draw, profile):
     if profile == 'readahead' and kind == 'pf' and draw(st.booleans()):
         case['catch'] = draw(st.sampled_from([True, 'VErrA']))
         case.pop('with_key', None) if w > 1 else None
+    if case.get('input_as') and (case.get('src_fail') or case.get('src_none') is not None and False):
+        case.pop('input_as')  # an in-memory sequence cannot fail while it is read
     case['sched'] = draw(st_sched())
     return case
 
